@@ -1,6 +1,7 @@
 """Envelope workload shared by C01 / C02 / C06 / C12 / C13: generation of stratified
 verify_signable cases in the case language, and their evaluation against the
 reference threshold model."""
+from . import hostile
 from ..gen import caselang, entries as gentries, jsonvals, keys as gkeys
 from ..monitors import boundary
 from ..refs import canonjson, models, schema
@@ -220,7 +221,10 @@ def evaluate(case, lib, fn=None):
     model = models.threshold_verdict(signable, authorized, threshold, gpg)
     before = boundary.fingerprint([signable, authorized, threshold])
     f = fn or lib.authentication.verify_signable
-    out = boundary.call(lib, f, signable, authorized, threshold, gpg=gpg)
+    with hostile.stdout(case.get("stdout")) as hs:
+        out = boundary.call(lib, f, signable, authorized, threshold, gpg=gpg)
+    case["_stdout_write_attempts"] = hs.attempts
+    model = hostile.adjust(model, case.get("stdout"))
     after = boundary.fingerprint([signable, authorized, threshold])
     return model, out, before != after, signable
 
